@@ -53,22 +53,36 @@ def run(res, tier):
                 res.known("F12", "POWER_POLE_CONFIG gives big poles a supply radius of 5; the game data says 2: entities are left outside every supply area",
                           example={"source": r["source"], "options": o, "unpowered": g["unpowered"][:5]})
                 stats["finding:F12"] += 1
-            else:
-                if not g.get("unpowered_inside"):
-                    res.known("F31", "entities outside the area the pole grid was laid over (user-placed entities far from the compiler-placed cluster / at negative coordinates; layout-dependent stragglers) are not powered",
-                              example={"source": r["source"], "options": o, "unpowered": g["unpowered"][:5]})
-                    stats["finding:F31"] += 1
-                elif all(0 < k <= len(ids) and ids[k - 1] in user for k in g.get("unpowered_inside", [])):
-                    # the grid point whose supply square would hold a user-placed entity is skipped when the entity (or
-                    # its reserved margin) occupies that tile, and nothing replaces it
-                    res.known("F41", "a user-placed consumer sits in a hole of the pole grid: the grid point next to it was skipped because its tile was taken, and no other pole was added",
-                              example={"source": r["source"], "options": o, "unpowered": [ids[k - 1] for k in g["unpowered_inside"][:5]]})
-                    stats["finding:F41"] += 1
-                else:
+            elif g.get("grid_points"):
+                # classify against the grid as it was laid out, before unused poles were trimmed
+                unp = g["unpowered"]
+                off = set(g.get("unpowered_off_grid", []))
+                hole = set(g.get("unpowered_grid_hole", []))
+                trimmed = [k for k in unp if k not in off]
+                name_of = lambda k: ids[k - 1] if 0 < k <= len(ids) else k  # noqa: E731
+                if trimmed:
                     stats["unpowered"] += 1
-                    res.violation({"reason": "an entity that consumes electricity lies outside every pole's supply area",
-                                   "entities": g["unpowered"][:5], "inside_pole_area": g.get("unpowered_inside"),
-                                   "source": r["source"], "options": o})
+                    res.violation({"reason": "an entity that consumes electricity lies outside every pole's supply area although a pole of the grid as laid out covered it: that pole was removed",
+                                   "entities": [name_of(k) for k in trimmed[:5]], "source": r["source"], "options": o})
+                if [k for k in off if k not in hole]:
+                    res.known("F31", "entities outside the area the pole grid was laid over (user-placed entities far from the compiler-placed cluster / at negative coordinates; layout-dependent stragglers) are not powered",
+                              example={"source": r["source"], "options": o, "unpowered": [name_of(k) for k in sorted(off - hole)[:5]]})
+                    stats["finding:F31"] += 1
+                if hole:
+                    if all(name_of(k) in user for k in hole):
+                        # the grid point whose supply square would hold a user-placed entity is skipped when the entity
+                        # (or its reserved margin) occupies that tile, and nothing replaces it
+                        res.known("F41", "a user-placed consumer sits in a hole of the pole grid: the grid point next to it was skipped because its tile was taken, and no other pole was added",
+                                  example={"source": r["source"], "options": o, "unpowered": [name_of(k) for k in sorted(hole)[:5]]})
+                        stats["finding:F41"] += 1
+                    else:
+                        stats["unpowered"] += 1
+                        res.violation({"reason": "a compiler-placed entity that consumes electricity sits in a hole of the pole grid",
+                                       "entities": [name_of(k) for k in sorted(hole)[:5]], "source": r["source"], "options": o})
+            else:
+                stats["unpowered"] += 1
+                res.violation({"reason": "an entity that consumes electricity lies outside every pole's supply area (no pole grid was recorded for this build)",
+                               "entities": g["unpowered"][:5], "source": r["source"], "options": o})
         has_user_poles = any(e["name"] in POLE_PROTO.values() and i in user for e, i in zip(ents, ids))
         if has_user_poles and g.get("pole_components", 1) != 1:
             # the decoded pole graph includes the program's own poles, which the clause does not speak about
